@@ -198,7 +198,7 @@ theorem prod_window_sums : ∀ (ds : List (Dim α)) (xs : List α) (cs : List Na
 theorem ndsplineeval_ones (T : Table α) (xs : List α) (cs : List Nat)
     (hok : AllOK T.dims xs cs) (hstride : lastStrideOne T.dims) (hones : ∀ i, T.coef i = 1)
     (hfull : AllFull T.dims xs) : ndsplineeval T xs cs 0 = 1 := by
-  obtain ⟨r1, r2, r3, r4⟩ := rows_eq_winRows T.dims xs cs (List.replicate T.dims.length .value) hok (allFirstOrder_replicate_value _)
+  obtain ⟨r1, r2, r3, r4⟩ := rows_eq_winRows T.dims xs cs (List.replicate T.dims.length .value) hok (allModesOK_replicate_value _ _ (AllOK_lengths _ _ _ hok).1)
   obtain ⟨l1, l2⟩ := AllOK_lengths T.dims xs cs hok
   unfold ndsplineeval evalModes
   rw [maskModes_zero]
